@@ -85,11 +85,26 @@ def _run(case, scheduler, built):
     outcomes = [[None] * len(calls) for calls in case["threads"]]
     shared_objects = {}
 
+    def intern(val):
+        """Equal lists/dicts become one object, at every nesting level."""
+        if isinstance(val, list):
+            val = [intern(v) for v in val]
+        elif isinstance(val, dict):
+            val = {k: intern(v) for k, v in val.items()}
+        else:
+            return val
+        key = json.dumps(val, sort_keys=True, default=repr)
+        return shared_objects.setdefault(key, val)
+
     def value_of(arg):
         # "share_values": calls whose values are equal receive the very same
-        # input object, also across threads (validation must not care)
-        if not case.get("share_values") or "np" in arg:
+        # input object, also across threads; "share_parts": equal sub-lists and
+        # sub-dicts of *different* values are one object too (validation must
+        # not care: it never writes to its input)
+        if "np" in arg or not (case.get("share_values") or case.get("share_parts")):
             return _value(arg)
+        if case.get("share_parts"):
+            return intern(_value(arg))
         key = json.dumps(arg["v"], sort_keys=True)
         if key not in shared_objects:
             shared_objects[key] = _value(arg)
@@ -240,7 +255,7 @@ def gen_case(rng):
     p_wide = 0.7 if wide else 0.0
     earlier = []
     shared_value = None
-    if rng.random() < 0.15:
+    if rng.random() < 0.25:
         shared_value = gen.gen_value(rng, shared_path[1])
     threads = []
     for _ in range(n_threads):
@@ -274,6 +289,9 @@ def gen_case(rng):
                 arg = {"v": val}
             elif shared_value is not None and path == shared_path[0]:
                 arg = {"v": copy.deepcopy(shared_value)}
+                if rng.random() < 0.5:
+                    # a different value that still has most sub-containers in common
+                    arg = {"v": gen.mutate(rng, shared_value)}
             else:
                 want_accept = rng.random() < 0.6
                 val = gen.gen_value(rng, node)
@@ -329,6 +347,7 @@ def gen_case(rng):
         "swarm": swarm.describe(),
         "hot": hot,
         "share_values": bool(shared_value is not None or p_again) and rng.random() < 0.6,
+        "share_parts": shared_value is not None and rng.random() < 0.6,
     }
     if wide:
         case["wide"] = True
@@ -413,6 +432,8 @@ def exec_case(case, log, stats):
         stats.inc("wide_runs(hundreds of fresh property names)")
     if case.get("share_values"):
         stats.inc("runs_sharing_input_objects_between_calls")
+    if case.get("share_parts"):
+        stats.inc("runs_sharing_sub_containers_between_different_inputs")
     if sch.capped:
         stats.inc("step_cap_hit")
     if sch.overlaps:
